@@ -57,28 +57,30 @@ def confirm(mdir, sid, prop):
 
 
 def evaluate(ids):
-    import pipeline
+    """run the Verus pipeline on a scratch copy of /repo with each stored patch applied (never touches /repo itself,
+    so background runs that read /repo are not disturbed); record which obligations fail"""
+    import pipeline, tempfile
     base = os.path.join(VERIF, "seeded")
     ids = ids or sorted(os.listdir(base))
-    rc, out = sh("git -C %s status --porcelain" % REPO)
-    assert out.strip() == "", "/repo not clean: " + out
     for sid in ids:
         d = os.path.join(base, sid)
         if not os.path.exists(os.path.join(d, "patch.diff")):
             continue
-        rc, out = sh("git -C %s apply %s" % (REPO, os.path.join(d, "patch.diff")))
-        if rc != 0:
-            print(sid, "patch does not apply:", out[:200])
-            continue
+        os.makedirs(os.path.join(VERIF, ".work"), exist_ok=True)
+        scratch = tempfile.mkdtemp(prefix="seed-%s-" % sid, dir=os.path.join(VERIF, ".work"))
         try:
-            res = pipeline.run_with_demotion(repo=REPO)
+            shutil.copytree(os.path.join(REPO, "src"), os.path.join(scratch, "src"))
+            shutil.copy(os.path.join(REPO, "Cargo.toml"), scratch)
+            rc, out = sh("patch -p1 -s -d %s -i %s" % (scratch, os.path.join(d, "patch.diff")))
+            if rc != 0:
+                print(sid, "patch does not apply:", out[:200])
+                continue
+            res = pipeline.run_with_demotion(repo=scratch)
         finally:
-            sh("git -C %s checkout -- ." % REPO)
+            shutil.rmtree(scratch, ignore_errors=True)
         fired = {}
         for prof, fl in res.get("failures", {}).items():
             for f in fl:
-                if f["name"] == "dep.reflect_remove.nonzst":
-                    continue
                 for p in f["props"]:
                     fired.setdefault(p, set()).add("%s@%s" % (f["name"], f["fn"]))
         meta = json.load(open(os.path.join(d, "meta.json")))
